@@ -41,6 +41,20 @@ def duplicate_definitions(events) -> list[list[str]]:
     return sorted(res)
 
 
+_GLOBPROD = re.compile(r"^Glob pattern \((.*)\) registered by step \((.*)\) matches \((.*)\), which step \((.*)\) builds")
+
+
+def glob_product_rejections(events) -> list[list[str]]:
+    """[pattern, registrant, path, builder] of every rejected glob-versus-product declaration."""
+    res = []
+    for e in events:
+        if e["ev"] == "step_exc" and e.get("exc") == "GraphError":
+            m = _GLOBPROD.match(e.get("msg", ""))
+            if m:
+                res.append(list(m.groups()))
+    return sorted(res)
+
+
 def double_executions(events) -> list[str]:
     """Steps whose command was started again while a command of the same step was still running."""
     running: dict[str, int] = {}
@@ -130,6 +144,7 @@ def run_history(project: dict, phases: list[dict], *, world: World | None = None
                     "nphases": len(group),
                     "watch_points": res.watch_points,
                     "dups": duplicate_definitions(res.trace),
+                    "globprod": glob_product_rejections(res.trace),
                     "double_exec": sorted(set(double_executions(res.trace)) | set(redefined_in_flight(res.trace))),
                 }
             )
